@@ -129,6 +129,8 @@ class Exec:
         self.fn = fn_info
         self.contract = contract
         self.registry = registry or {}
+        import pyvc.sym as _sym
+        _sym.VAL_TRUTHY[0] = contract.ghosts.get('truthy_val')
         self.name = name or fn_info.qualname
         self.vcs = []
         self.axioms = []
@@ -692,7 +694,7 @@ class Exec:
 
     def assign(self, target, v, st):
         if isinstance(target, ast.Name):
-            if isinstance(v, ArrayVal) and not self.spec_mode:
+            if isinstance(v, ArrayVal) and not self.spec_mode and not getattr(v, 'is_list', False):
                 v = lib._new_buffer(st, v, target.id)      # numpy results are fresh mutable arrays
             hints = self.contract.ghosts.get('seqvars', {})
             if isinstance(v, list) and target.id in hints and not self.spec_mode:
@@ -1600,17 +1602,29 @@ class Exec:
             idxs = list(idxs[0])
         # tuple of index arrays / mixed with slices
         arrs = [as_array(st, x) if isinstance(x, (ArrayVal, NDRef, list, PyList)) else x for x in idxs]
+
+        def gather_index(ia, n, what):
+            # element-wise python index normalisation (a negative index wraps once) + in-bounds obligation
+            if ia.ndim == 1 and not self.spec_mode:
+                g = z3.Int(fresh_name('g'))
+                e = to_int(ia.get(g))
+                self.emit(st, 'index', z3.ForAll([g], z3.Implies(z3.And(g >= 0, g < to_int(ia.shape[0])),
+                                                                 z3.And(e >= -to_int(n), e < to_int(n)))), node, what)
+            return lambda *i: norm_index(ia.get(*i), n)[0]
         if all(isinstance(x, ArrayVal) for x in arrs) and len(arrs) == a.ndim:
             shp = arrs[0].shape
-            return ArrayVal(shp, lambda *i: a.get(*[to_int(x.get(*i)) for x in arrs]), a.dtype)
+            gs = [gather_index(x, a.shape[ax], 'gather indices (axis %d) in bounds' % ax) for ax, x in enumerate(arrs)]
+            return ArrayVal(shp, lambda *i: a.get(*[to_int(g_(*i)) for g_ in gs]), a.dtype)
         if a.ndim == 2 and len(arrs) == 2 and isinstance(arrs[0], SliceIx) and isinstance(arrs[1], ArrayVal):
             lo, step, length = slice_bounds(arrs[0].start, arrs[0].stop, arrs[0].step, a.shape[0])
             ia = arrs[1]
-            return ArrayVal((length,) + ia.shape, lambda i, *k: a.get(s_add(lo, s_mul(i, step)), to_int(ia.get(*k))), a.dtype)
+            g1 = gather_index(ia, a.shape[1], 'gathered column indices in bounds')
+            return ArrayVal((length,) + ia.shape, lambda i, *k: a.get(s_add(lo, s_mul(i, step)), to_int(g1(*k))), a.dtype)
         if a.ndim == 2 and len(arrs) == 2 and isinstance(arrs[1], SliceIx) and isinstance(arrs[0], ArrayVal):
             lo, step, length = slice_bounds(arrs[1].start, arrs[1].stop, arrs[1].step, a.shape[1])
             ia = arrs[0]
-            return ArrayVal(ia.shape + (length,), lambda *k: a.get(to_int(ia.get(*k[:-1])), s_add(lo, s_mul(k[-1], step))), a.dtype)
+            g0 = gather_index(ia, a.shape[0], 'gathered row indices in bounds')
+            return ArrayVal(ia.shape + (length,), lambda *k: a.get(to_int(g0(*k[:-1])), s_add(lo, s_mul(k[-1], step))), a.dtype)
         raise Unsupported('advanced indexing pattern at line %s' % getattr(node, 'lineno', '?'))
 
     def setitem(self, base, idx, v, st, node):
@@ -1694,6 +1708,8 @@ class Exec:
         if any(d.fixed is not None or not (is_conc_num(d.step) and d.step == 1 and is_conc_num(d.start) and d.start == 0)
                for d in ref.dims):
             raise Unsupported('fancy write through a view')
+        if len(arrs) == 1 and len(ref.dims) in (1, 2) and arrs[0].ndim == 1 and not is_conc_num(arrs[0].shape[0]):
+            return self.scatter_rows(ref, old, arrs[0], v, st, node)
         if len(arrs) != len(ref.dims):
             raise Unsupported('partial fancy write')
         n = arrs[0].shape[0]
@@ -1729,6 +1745,34 @@ class Exec:
             st.store[ref.buf] = ArrayVal(old.shape, get1, old.dtype)
             return
         raise Unsupported('fancy write pattern at line %d' % node.lineno)
+
+    def scatter_rows(self, ref, old, ia, v, st, node):
+        """a[idx] = v for an index array of symbolic length K along the first axis: row r is replaced iff some idx[j] == r,
+        by v[j] for the LAST such j (HIT / LASTJ functions, as for dict comprehensions)"""
+        K = to_int(ia.shape[0])
+        n0 = to_int(old.shape[0])
+        HIT = z3.Function(fresh_name('scatter_hit'), z3.IntSort(), z3.BoolSort())
+        LASTJ = z3.Function(fresh_name('scatter_j'), z3.IntSort(), z3.IntSort())
+        j, r = z3.Ints('j r')
+        ij = to_int(ia.get(j))
+        self.emit(st, 'index', z3.ForAll([j], z3.Implies(z3.And(j >= 0, j < K), z3.And(ij >= 0, ij < n0))), node, 'scatter indices in bounds')
+        st.assume(z3.ForAll([j], z3.Implies(z3.And(j >= 0, j < K), z3.And(HIT(ij), LASTJ(ij) >= j)),
+                            patterns=lib.infer_patterns(ij, [j]) or [ij]))
+        st.assume(z3.ForAll([r], z3.Implies(HIT(r), z3.And(LASTJ(r) >= 0, LASTJ(r) < K, to_int(ia.get(LASTJ(r))) == r)), patterns=[HIT(r)]))
+        self.assumed.append('model: a[idx] = v replaces exactly the rows listed in idx (the last occurrence wins)')
+        if isinstance(v, NDRef):
+            v = read_view(st, v)
+        if isinstance(v, ArrayVal):
+            self.emit(st, 'shape', to_z3(s_eq(v.shape[0], ia.shape[0])), node, 'scatter: one source row per index')
+            vget = lambda q, *rest: v.get(q, *rest)
+        else:
+            vget = lambda q, *rest: v
+
+        def get(i, *rest):
+            i = to_int(i)
+            return ite(HIT(i), vget(LASTJ(i), *rest), old.get(i, *rest))
+        new = ArrayVal(old.shape, get, old.dtype)
+        st.store[ref.buf] = new
 
     # ---- attributes / heap -------------------------------------------------------------------
 
